@@ -61,6 +61,7 @@ func c10PatternCount() int { return 2 * len(c10Patterns()) }
 type c10State struct {
 	mu        sync.Mutex
 	synSeen   []uint8 // N values of SYNs delivered to the server in its current attempt
+	staleNs   []uint8 // window values carried by injected stale SYNs that differ from the client's
 	hsCount   int     // handshake packets offered so far (both directions)
 	cliN      uint8
 	gotC2S    bool
@@ -159,6 +160,11 @@ func c10Run(rc *simrt.RunCtx, pattern int) {
 						staleN = 0
 					}
 					b = []byte{SYN, staleN}
+					if staleN != n {
+						st.mu.Lock()
+						st.staleNs = append(st.staleNs, staleN)
+						st.mu.Unlock()
+					}
 				case 1:
 					b = []byte{SYNACK}
 				case 2:
@@ -266,7 +272,18 @@ func c10Run(rc *simrt.RunCtx, pattern int) {
 					st.gotC2S = true
 					st.mu.Unlock()
 					if c.cfg.n != n {
-						rc.Violate("c10.window", "data-flows-with-other-window", "client data delivered on a server using n=%d, client proposed %d", c.cfg.n, n)
+						cause := "data-flows-with-other-window"
+						st.mu.Lock()
+						for _, v := range st.staleNs {
+							if v == c.cfg.n {
+								// the server adopted the window of a stale SYN of
+								// an earlier connection (recorded finding)
+								cause += "/adopted-stale-syn"
+								break
+							}
+						}
+						st.mu.Unlock()
+						rc.Violate("c10.window", cause, "client data delivered on a server using n=%d, client proposed %d", c.cfg.n, n)
 					}
 					if c.Send(mkMsg('B', 0, 16)) != nil {
 						break
